@@ -149,8 +149,8 @@ fn run_case(cfg: &Value, case: &Value, ln: usize) -> (Vec<Mismatch>, Value, Vec<
                         match cmd {
                             Cmd::Outcome(o, rem) => match o.as_str() {
                                 "ok" => BatchFut::Done(Some(Ok(()))),
-                                "fail" => BatchFut::Done(Some(Err(BatchError::no_retry(HErr)))),
-                                "retry" => BatchFut::Done(Some(Err(BatchError::retry(HErr, rem)))),
+                                "fail" => BatchFut::Done(Some(Err(vh_batcher::build_error(None)))),
+                                "retry" => BatchFut::Done(Some(Err(vh_batcher::build_error(Some(rem))))),
                                 "panic" => panic!("scripted panic in on_batch"),
                                 "panicFut" => BatchFut::PanicOnPoll,
                                 _ => tool_error("bad outcome"),
@@ -683,6 +683,8 @@ fn main() {
             return;
         }
         rep.cases += 1;
+        // (if the code under test takes the process down, the driver reads here which schedule did it)
+        let _ = std::fs::write(format!("{}.cur", &args[3]), ln.to_string());
         let (mism, trace, atrace) = run_case(&cfg, case, ln);
         let divergent = !mism.is_empty();
         let hang = mism.iter().any(|m| m.what.contains("(hang)"));
